@@ -26,6 +26,9 @@ type compiler struct {
 	root *Module
 	pool map[HasDefinitions]struct{}
 
+	// imported modules already visited by compileImport
+	importsCompiled map[*Module]struct{}
+
 	// typedefs being compiled, to detect a typedef that is defined in terms of itself
 	typedefsInProgress map[*Typedef]struct{}
 }
@@ -58,6 +61,14 @@ func (c *compiler) module(y *Module) error {
 }
 
 func (c *compiler) compileImport(m *Module) error {
+	// modules may import each other
+	if _, visited := c.importsCompiled[m]; visited {
+		return nil
+	}
+	if c.importsCompiled == nil {
+		c.importsCompiled = make(map[*Module]struct{})
+	}
+	c.importsCompiled[m] = struct{}{}
 	for _, i := range m.identities {
 		if err := c.compile(i); err != nil {
 			return err
